@@ -88,7 +88,8 @@ def read_fragment_cgsmiles(cgsmiles_str,
     networkx.Graph
         the graph of the molecular fragment
     """
-    mol_graph = read_cgsmiles(cgsmiles_str)
+    # the reader expects the enclosing braces (a closing %nn ring marker is terminated by them)
+    mol_graph = read_cgsmiles('{' + cgsmiles_str + '}')
     fragnames = nx.get_node_attributes(mol_graph, 'fragname')
     nx.set_node_attributes(mol_graph, fragnames, 'atomname')
     nx.set_node_attributes(mol_graph, bonding_descrpt, 'bonding')
